@@ -30,7 +30,7 @@ RULE = (
 )
 ASSUMPTIONS = [
     "interruption = exception from the user's likelihood or prior",
-    "'most recent payload' = last bytes handed to dump_state for this file by any run in the history of the file",
+    "'most recent payload' = last bytes the interrupted run handed to dump_state for this file; before its first checkpoint the file may hold no checkpoint or, intact, the last one of an earlier run (whether that one is still consistent with the file's proposal/config is C14's question)",
 ]
 REQUIRED_COUNTERS = ["configurations", "faults_injected", "files_inspected_after_fault", "resume_from_file_checked", "dump_calls_recorded", "file_probes", "shrink_sequences"]
 EXHAUSTIVE = True
@@ -192,6 +192,7 @@ def faults_case(case, counters, viol, nontrivial):
                     rb, _, _ = one_run(big_cfg, path, mode)
                     if rb.exc is not None:
                         raise rb.exc
+                n_before = len(DUMPS)
                 counters["faults_injected"] += 1
                 res, probe, a = one_run(cfg, path, mode, fault=(kind, idx))
                 if res.exc is None:
@@ -199,9 +200,13 @@ def faults_case(case, counters, viol, nontrivial):
                     continue
                 if not isinstance(res.exc, InjectedFault):
                     raise res.exc
-                mine = [d for d in DUMPS if d[0] == os.path.realpath(path)]
+                mine = [d for d in DUMPS[n_before:] if d[0] == os.path.realpath(path)]  # payloads of the interrupted run
+                earlier = [d for d in DUMPS[:n_before] if d[0] == os.path.realpath(path)]  # left by the earlier, bigger run
                 latest = mine[-1][2] if mine else None
                 st = read_file(path)
+                if latest is None and earlier and st["state"] is not None:
+                    # the interrupted run wrote nothing yet: a checkpoint that is still there must be the earlier run's last one, intact
+                    latest = earlier[-1][2]
                 counters["files_inspected_after_fault"] += 1
                 tag = f"{where} [fault at {kind} call {idx}/{total}]"
                 if not (st["config"] and st["flow"]):
